@@ -193,6 +193,13 @@ def special_case(backend, linsolver, lmode, tolpos, bad):
                         tolreal=1e-8 if tolpos else 0., tolpos=tolpos, miniter=0, maxiter=None, lmode=lmode, linsolver=linsolver, backend=backend, pseudo_dt=1.))
 
 
+def special_linesearch(backend, api):
+    """LinesearchNewton / NormBased at a point where the Jacobian is infinite: r(u) = -u^3 + sqrt(u) + 1 from u = 0"""
+    prob = Problem(1, numpy.array([[0.]]), numpy.array([-1.]), numpy.array([-1.]), numpy.array([1.]), 'sqrt')
+    return execute(dict(api=api, mname='linesearch', prob=prob, conskind='none', free=numpy.ones(1, dtype=bool), guessed=False, guess=numpy.zeros(1),
+                        consval=numpy.zeros(1), tolreal=1e-9, tolpos=True, miniter=0, maxiter=20, lmode='default', linsolver='default', backend=backend, pseudo_dt=1.))
+
+
 def run_case(rng, backend_name):
     return execute(draw_case(rng, backend_name))
 
